@@ -1,4 +1,9 @@
-"""C17 — interfaces are isolated (sequential interleavings; the thread clause is tools/race.py)"""
+"""C17 — interfaces are isolated: sequential interleavings (correspondence) + thread clause (schedule replay)"""
+import os
+import re
+import subprocess
+
+import vlib
 from . import frames as F
 from .c02 import attrs, history
 
@@ -76,3 +81,58 @@ def extra_predicate(cases, impl):
                     bad[cid] = (0, 'C17: the trace of interface %d differs between the interleaved run and the run of its history alone, at %r vs %r'
                                 % (i, (a + ['<end>'])[j][:100], (b + ['<end>'])[j][:100]))
     return bad
+
+
+SCHEDULES = ['AABB', 'ABAB', 'ABBA', 'BAAB', 'BABA', 'BBAA']
+
+
+def extra_run(tier, seed, tag):
+    """thread clause: replay the six schedules of the two-segment insertion on the REAL code (hook-driven), compare
+    with the model's prediction (Race.lean), and report lost interface state; TSan run as supporting evidence"""
+    out = {'violations': [], 'notes': [], 'coverage': {}}
+    core = os.path.join(vlib.REPO, 'lltdResponder')
+    h = os.path.join(vlib.VERIF, 'harness')
+    bdir = os.path.join(vlib.BUILD, tag, 'race')
+    os.makedirs(bdir, exist_ok=True)
+    srcs = [os.path.join(core, f) for f in ('lltdBlock.c', 'lltdTlvOps.c', 'lltdWire.c', 'lltdAutomata.c')] + [os.path.join(h, 'vport.c'), os.path.join(h, 'race_main.c')]
+    base = ['gcc', '-std=gnu11', '-O1', '-g', '-w', '-D_GNU_SOURCE', '-DD3VI1_LLTDRESPONDER_VERIF', '-I' + core, '-I' + h]
+    r = vlib.run(base + srcs + ['-lpthread', '-o', os.path.join(bdir, 'race')])
+    if r.returncode != 0:
+        out['notes'].append('race harness does not build (is the schedule hook still in lltd_state_for_iface?): ' + r.stdout[-600:])
+        return out
+    results = {}
+    for s in SCHEDULES:
+        try:
+            rr = vlib.run([os.path.join(bdir, 'race'), s], timeout=20)
+            line = rr.stdout.strip().split('\n')[-1] if rr.stdout.strip() else ''
+        except subprocess.TimeoutExpired:
+            line = 'sched %s TIMEOUT (schedule not realisable: hook points moved?)' % s
+        m = re.search(r'stranger_answered_if0=(\d) stranger_answered_if1=(\d)', line)
+        impl_lost = [i for i in (0, 1) if m and m.group(i + 1) == '1'] if m else None
+        mr = vlib.run([vlib.DRIVER, 'race', s])
+        mm = re.search(r'lost=\[([0-9, ]*)\]', mr.stdout)
+        model_lost = [int(x) for x in mm.group(1).split(',') if x.strip()] if mm else None
+        results[s] = {'implementation': line, 'impl_lost': impl_lost, 'model_lost': model_lost}
+        if impl_lost is None:
+            out['notes'].append('thread clause: schedule %s could not be replayed: %s' % (s, line))
+        else:
+            if impl_lost != model_lost:
+                out['notes'].append('thread clause: schedule %s: implementation lost %s, model predicts %s' % (s, impl_lost, model_lost))
+            if impl_lost:
+                out['violations'].append(('race_' + s, ['race ' + s],
+                                          (0, 'C17 thread clause: lost-update at lltd_state_for_iface under schedule %s: the state of interface %s is lost '
+                                              '(a stranger\'s Discover is answered although a mapper was active; the orphaned record leaks)' % (s, impl_lost))))
+    # supporting evidence: ThreadSanitizer on one racing schedule
+    tsan = 'not run'
+    r = vlib.run(base + ['-fsanitize=thread'] + srcs + ['-lpthread', '-o', os.path.join(bdir, 'race_tsan')])
+    if r.returncode == 0:
+        env = dict(os.environ, TSAN_OPTIONS='halt_on_error=0:report_signal_unsafe=0')
+        try:
+            tr = subprocess.run([os.path.join(bdir, 'race_tsan'), 'FREE'], stdout=subprocess.PIPE, stderr=subprocess.STDOUT, text=True, timeout=60, env=env)
+            n = tr.stdout.count('WARNING: ThreadSanitizer: data race')
+            core_hits = len(re.findall(r'lltdBlock\.c', tr.stdout))
+            tsan = '%d data-race reports (threads released together by a barrier, no schedule hook), %d frames in lltdBlock.c' % (n, core_hits)
+        except subprocess.TimeoutExpired:
+            tsan = 'timeout'
+    out['coverage'] = {'thread_schedules': results, 'tsan_supporting_run': tsan}
+    return out
